@@ -158,12 +158,12 @@ def run(prog: Program, rep: Report, tier: str) -> None:
     rep.rule("R7.8", "structural: no function reachable from the datagram builder or the protocol's methods declares a global or mutates / stores into a module-level name (memory between datagrams, whatever the analysis of the values can follow)", 1, structural=True)
     ms_ = module_state_on_receive_path(prog)
     rep.check(not ms_, "R7.8", "no module-level state on the receive path", "src/aioswitcher/bridge.py", f"{ms_[:3]}: what is delivered for a datagram depends on the datagrams seen before it", key="R7.8|module-state")
-    from ..api_model import gate_premise
-    gate_premise(prog, rep)
     rep.rule("R7.9", "structural: no handler / protocol factory handed to the event loop inside a loop is a closure over a variable that loop re-assigns (late binding: every port's handler would see the last port's value)", 1, structural=True)
     lb_ = late_bound_handlers(prog)
     rep.check(not lb_, "R7.9", "handlers do not close over loop variables", "src/aioswitcher/bridge.py", f"{lb_[:2]}: the handler runs after the loop has finished, so on every port it works with the value of the last iteration - "
               f"broadcasts are judged (and here dropped) by a port they did not arrive on", key="R7.9|late-binding")
+    from ..api_model import gate_premise
+    gate_premise(prog, rep)          # (after the structural rules: what they found stands even if the gate analysis stops)
     rep.rule("R7.4", "one protocol object and one transport per port, each bound to partial(_parse_device_from_datagram, <the user's callback>)", 1)
     rep.explanation = (
         "Decides four structural necessary conditions (one synchronous hand-off per datagram; no state carried between datagrams; nothing on the receive path closes a transport; "
